@@ -347,6 +347,28 @@ def _elem_term(x, ety):
     return ety.lift(x)
 
 
+class Schema:
+    """
+    A universally quantified invariant conjunct  forall y. f(y).
+    Proved at a fresh skolem y0 after instantiating the induction hypothesis (the same conjunct as assumed at
+    the start of the iteration) at y0 - single-instance skolemisation, so the VC stays quantifier free.
+    `using(y)` gives definitional unfoldings to instantiate at y.
+    """
+
+    def __init__(self, sort, f, using=None):
+        self.sort, self.f, self.using = sort, f, using
+
+    def at(self, ex, y):
+        if self.using:
+            for u in self.using(y):
+                ex.assume_def(u)
+        return self.f(y)
+
+    def forall(self):
+        y = z3.Const("y!schema", self.sort)
+        return z3.ForAll([y], self.f(y))
+
+
 class _SafeSpec:
     """loop contract whose callbacks report a structural mismatch with the code as Unsupported instead of crashing"""
 
@@ -404,7 +426,7 @@ class Obligation:
     def as_dict(self):
         return dict(id=self.oid, status=self.status, detail=self.detail, seconds=round(self.seconds, 4),
                     path=self.path, model=self.model, backend=self.backend, vacuous=self.vacuous,
-                    smt_size=self.smt_size)
+                    smt_size=self.smt_size, auto_slots=getattr(self, "auto_slots", []))
 
 
 # ---------------------------------------------------------------------------
@@ -589,6 +611,7 @@ class Ex:
             st = "unknown"
             model = {"candidate_from_sliced_query": candidate} if candidate else None
         ob = Obligation(oid, st, detail or str(fs)[:300], time.time() - t0, path, model, backend, size)
+        ob.auto_slots = list(self.ghost.get("auto_slots", []))
         self.obligations.append(ob)
         if st == "discharged":
             self.assume(f)
@@ -682,6 +705,24 @@ class Ex:
             else:
                 out.append(x)
         return out
+
+    def assume_inv(self, items, store):
+        for lab, f in items:
+            if isinstance(f, Schema):
+                store[lab] = f          # instantiated explicitly where needed (no quantifier enters the solver)
+            else:
+                self.assume(f)
+                self._note_var_def(f)
+
+    def prove_inv_items(self, prefix, items, ih):
+        for lab, f in items:
+            if isinstance(f, Schema):
+                y0 = z3.Const(f"y0!{lab}!{len(self.obligations)}", f.sort)
+                if lab in ih:
+                    self.assume(ih[lab].at(self, y0))       # the induction hypothesis, instantiated once
+                self.prove(f"{prefix}:{lab}", f.at(self, y0))
+            else:
+                self.prove_inv(f"{prefix}:{lab}", f)
 
     def prove_inv(self, oid, f, detail=""):
         if z3.is_eq(f) and z3.is_seq(f.arg(0)) and not z3.is_string(f.arg(0)):
@@ -1333,6 +1374,58 @@ class Ex:
             return
         return self.sym_while(s, fr, _SafeSpec(spec, key), key)
 
+    def _auto_slots(self, node, fr, spec):
+        """
+        A pre-existing local that the loop body assigns but the contract does not declare becomes loop state with
+        no invariant (an arbitrary value at the start of every iteration).  Sound; proofs that need to know more
+        about it fail, and such failures are flagged so that they are not reported as violations without a witness.
+        """
+        declared = {getattr(sl, "local", None) for sl in spec.slots}
+        tgt = {n_.id for n_ in ast.walk(node.target) if isinstance(n_, ast.Name)} if isinstance(node, ast.For) else set()
+        assigned = set()
+        for st in node.body:
+            for n_ in ast.walk(st):
+                if isinstance(n_, (ast.FunctionDef, ast.Lambda)):
+                    continue
+                if isinstance(n_, ast.Name) and isinstance(n_.ctx, ast.Store):
+                    assigned.add(n_.id)
+        extra = []
+        for nm in sorted(assigned - declared - tgt):
+            if nm not in fr.locals:
+                continue
+            v = fr.locals[nm]
+            ty = None
+            if is_sym(v):
+                ty = v.ty
+            elif isinstance(v, NTVal):
+                ty = v.nty
+            elif v is None:
+                ty = self._annotated_type(fr, nm)
+            else:
+                try:
+                    ty = ty_of_concrete(v)
+                except Exception:
+                    ty = None
+            if ty is None:
+                raise Unsupported(f"loop in {fr.fi.qualname} assigns local {nm!r} (a {type(v).__name__}) that is not in its declared state")
+            extra.append(local_slot(nm, ty))
+        if extra:
+            spec.slots = list(spec.slots) + extra
+            self.ghost.setdefault("auto_slots", []).extend(sl.name for sl in extra)
+            self.notes.append("loop-carried local(s) not covered by the contract, treated as arbitrary: " + ", ".join(sl.name for sl in extra))
+
+    def _annotated_type(self, fr, name):
+        """type descriptor from a `name: T = ...` annotation in the function (evaluated in the module's namespace)"""
+        from .values import ty_from_hint
+        for n_ in ast.walk(fr.fi.node):
+            if isinstance(n_, ast.AnnAssign) and isinstance(n_.target, ast.Name) and n_.target.id == name:
+                try:
+                    hint = eval(compile(ast.Expression(n_.annotation), "<annotation>", "eval"), dict(vars(fr.module)))
+                    return ty_from_hint(hint)
+                except Exception:
+                    return None
+        return None
+
     def _loop_state(self, spec, fr):
         out = {}
         for sl in spec.slots:
@@ -1397,6 +1490,7 @@ class Ex:
         if spec is None:
             raise Unsupported(f"for loop {key} over a symbolic sequence needs an invariant")
         spec = _SafeSpec(spec, key)
+        self._auto_slots(s, fr, spec)
         name = spec.name or f"{fr.fi.qualname.split('.')[-1]}#loop{ordn}"
         n = it.length
         self.assume(n >= 0)
@@ -1407,8 +1501,7 @@ class Ex:
         if spec.using:
             for u in spec.using(self, fr, zero, vals0):
                 self.assume_def(u)
-        for lab, f in spec.inv(self, fr, zero, vals0):
-            self.prove_inv(f"{name}:inv-init:{lab}", f)
+        self.prove_inv_items(f"{name}:inv-init", spec.inv(self, fr, zero, vals0), {})
         # 2. arbitrary iteration or exit
         which = self.choose([(f"{name}:iter", z3.BoolVal(True)), (f"{name}:exit", z3.BoolVal(True))])
         pre_locals = set(fr.locals)
@@ -1420,9 +1513,8 @@ class Ex:
             if spec.using:
                 for u in spec.using(self, fr, i, vals):
                     self.assume_def(u)
-            for lab, f in spec.inv(self, fr, i, vals):
-                self.assume(f)
-                self._note_var_def(f)
+            ih = {}
+            self.assume_inv(spec.inv(self, fr, i, vals), ih)
             if it.facts:
                 for f in it.facts(self, i):
                     self.assume(f)
@@ -1461,8 +1553,7 @@ class Ex:
             if spec.using:
                 for u in spec.using(self, fr, i1, vals1):
                     self.assume_def(u)
-            for lab, f in spec.inv(self, fr, i1, vals1):
-                self.prove_inv(f"{name}:inv-keep:{lab}", f)
+            self.prove_inv_items(f"{name}:inv-keep", spec.inv(self, fr, i1, vals1), ih)
             self.cover(f"{name}:iter")
             raise PathAbort("loop iteration verified")
         else:
@@ -1470,9 +1561,7 @@ class Ex:
             if spec.using:
                 for u in spec.using(self, fr, n, vals):
                     self.assume_def(u)
-            for lab, f in spec.inv(self, fr, n, vals):
-                self.assume(f)
-                self._note_var_def(f)
+            self.assume_inv(spec.inv(self, fr, n, vals), self.ghost.setdefault(("schemas", key), {}))
             # loop-local temporaries are undefined after the loop
             self.cover(f"{name}:exit")
             if getattr(it, "on_exhaust", None):
